@@ -26,8 +26,10 @@ CFG = {
         "Trusted: Coq kernel + vm_compute; the hand model tied by this run's correspondence; the Go harness (generators, recover "
         "wrappers, printing of case terms). No axioms; case_accept is pure correspondence (no '&& holds' fallback). Left out / "
         "abstracted: the traversal of ONE 64-bit word (table scan above sparseMagic members, ctz/clz loop below) is modelled by "
-        "its result 'the first n set positions in the direction' - that equality is C08's subject (Bit64.v iter_fwd_spec); the "
-        "16-word loop around it (break, cursor, left) is modelled and proved. Errors are compared as error / no error (the "
+        "its result 'the first n set positions in the direction'; for the forward direction c09_word_iter_forward proves that "
+        "C08's mirrored loops (Bit64.iter_fwd: both branches, every threshold) compute exactly this list, the reverse direction "
+        "of one word rests on the correspondence (every reverse iteration observed is compared); the 16-word loop around it "
+        "(break, cursor, left) and the list loop over blocks are modelled and proved (one shared iter_loop lemma). Errors are compared as error / no error (the "
         "message text is not an observable of the property); nil and the empty slice are not distinguished; after a refused "
         "Unmarshal the partially filled receiver is not compared. Negative iteration counts panic in make([]T, n) (model: Panic; "
         "the monitor puts no requirement there). Bit1024.Unmarshal into a NON-fresh bitmap (sparse form ORs into it) is outside "
